@@ -68,7 +68,11 @@ pub fn run(ctx: &Ctx) -> i32 {
             let back = match guarded(|| obtain_grammar_config_from_string(&text, false)) {
                 Ok(Ok(b)) => b,
                 Ok(Err(e)) => {
-                    rep.violation(json!({"kind": "rendered-text-does-not-parse", "which": which}), format!("the rendered PAR text of the {which} grammar is rejected by parol: {}", truncate(&format!("{e:#}"), 300)), wit(format!("{e:#}"), &text));
+                    // classifier for a known finding: a group around a single terminal (B: ( 'c' );) is
+                    // rendered without the group, which turns B into a second token alias of that text
+                    let msg = format!("{e:#}");
+                    let reason = if msg.contains("Multiple token aliases that expand to the same text") { "multiple-token-aliases" } else { "other" };
+                    rep.violation(json!({"kind": "rendered-text-does-not-parse", "which": which, "reason": reason}), format!("the rendered PAR text of the {which} grammar is rejected by parol: {}", truncate(&format!("{e:#}"), 300)), wit(format!("{e:#}"), &text));
                     continue;
                 }
                 Err(pm) => {
